@@ -294,6 +294,10 @@ def evaluate_restore(rp):
 
 def restore_case(rng, tier, i, which=None, F=None, default=False, identity=False, level=None, metric=None):
     big = tier == 'thorough'
+    if which is None and metric is None and level is None and i % 4 == 3:
+        # the integer typed binary masks meet every aligner x metric combination in turn (both aligners with 'cos' in every run)
+        which, metric = [('dhtv', 'cos'), ('greedy', 'cos'), ('dhtv', 'euclidean'), ('greedy', 'multiply'), ('dhtv', 'multiply'),
+                         ('greedy', 'euclidean')][(i // 4) % 6]
     which = which or ('greedy' if rng.random() < 0.5 else 'dhtv')
     metric = metric or pc.METRICS[int(rng.integers(0, 3))]
     K = int(rng.integers(2, 5))
